@@ -80,3 +80,16 @@ Theorem interp1d_between (xs ys : list R) t y : increasing (@zipn RA xs ys) ->
   @interp1d RA xs ys t = Ok y -> forall x0 y0 x1 y1 pre post, @zipn RA xs ys = (pre ++ (x0, y0) :: (x1, y1) :: post)%list ->
   x0 <= t -> t < x1 -> y = y0 + (y1 - y0) * ((t - x0) / (x1 - x0)).
 Proof. intros Hinc H x0 y0 x1 y1 pre post E H0 H1. rewrite (interp1d_inv _ _ _ _ H). eapply interp_on_chord; eauto. Qed.
+
+(** the target time handed to the interpolation (as repaired by the D16 fix commit) lies within the simulated interval, so the
+    interpolation's own range check cannot fail for a target that passed the tolerance-based check *)
+Lemma clamp_in_range (t lo hi : R) : lo <= hi ->
+  let t1 := if @ltb RA t lo then lo else t in
+  let t2 := if @ltb RA hi t1 then hi else t1 in
+  lo <= t2 <= hi.
+Proof.
+  intros H. cbv zeta. change (@ltb RA) with Rltb.
+  destruct (Rltb t lo) eqn:E1.
+  - destruct (Rltb hi lo) eqn:E2; [apply Rltb_true in E2; lra|lra].
+  - apply Rltb_false in E1. destruct (Rltb hi t) eqn:E2; [lra|apply Rltb_false in E2; lra].
+Qed.
